@@ -39,7 +39,7 @@ func (c07) Meta() fw.Meta {
 			"CLI flag agreement is sampled (real process per invocation), not run for every candidate",
 		},
 		Obligations: []string{"newheader_accept", "newheader_reject", "create_accept", "create_reject", "parse_accept", "parse_reject", "takefrom_accept", "takefrom_reject", "open_accept", "open_reject", "cli_accept", "cli_reject",
-			"reject_equal_steps", "reject_out_of_order", "reject_size_beyond_4GiB", "reject_nondividing", "reject_equal_retention", "reject_too_few_points", "reject_zero", "reject_empty", "reject_overflow_offset", "reject_overflow_retention", "reject_method", "reject_xff_nan", "reject_xff_range", "accept_xff_negzero", "reopen_header_equal", "unit_retention_strings", "route_prefix-of-parsed-list", "route_parsed-list-extended", "route_header-list-extended", "route_header-list-cut", "route_backing-array-used-by-shorter-header", "takefrom_into_used_receiver"},
+			"reject_equal_steps", "reject_out_of_order", "reject_size_beyond_4GiB", "reject_nondividing", "reject_equal_retention", "reject_too_few_points", "reject_zero", "reject_empty", "reject_overflow_offset", "reject_overflow_retention", "reject_method", "reject_xff_nan", "reject_xff_range", "accept_xff_negzero", "reopen_header_equal", "unit_retention_strings", "route_prefix-of-parsed-list", "route_parsed-list-extended", "route_header-list-extended", "route_header-list-cut", "route_backing-array-used-by-shorter-header", "takefrom_into_used_receiver", "open_of_padded_files", "caller_list_reused_after_create"},
 	}
 }
 
@@ -335,9 +335,19 @@ func (c07) Run(c *fw.Ctx) {
 		}
 		if small {
 			p := filepath.Join(c.TmpDir(), fmt.Sprintf("c07-%d.wsp", j))
-			db, err := wt.Create(p, append(wt.ArchiveInfoList(nil), aa...), wt.AggregationMethod(cd.Method), cd.Xff)
+			callers := append(wt.ArchiveInfoList(nil), aa...)
+			db, err := wt.Create(p, callers, wt.AggregationMethod(cd.Method), cd.Xff)
 			verdict("create", err == nil, wantAll, err)
 			if err == nil {
+				if j%2 == 1 {
+					// the caller goes on using ITS slice (another, shorter header built from it; elements overwritten):
+					// what Create accepted and wrote is what must be found on reopening
+					if len(callers) >= 2 {
+						wt.NewHeader(wt.Average, 0.5, callers[:len(callers)-1])
+					}
+					callers[0] = wt.NewArchiveInfo(wt.Duration(1), 1)
+					c.Count("caller_list_reused_after_create", 1)
+				}
 				serr := db.Sync()
 				db.Close()
 				if serr != nil {
@@ -430,6 +440,19 @@ func (c07) Run(c *fw.Ctx) {
 					verdict("open", err == nil, wantAll, err)
 					if err == nil {
 						db.Close()
+					}
+					if j%4 == 0 && size < 1<<26 {
+						// the same header in a file LONGER than the layout needs (padded to a block, preallocated): the
+						// list is as well-formed as before
+						os.Truncate(p, size+int64(1+r.Intn(8192)))
+						detail["route"] = "file-longer-than-the-layout-needs"
+						db, err := wt.Open(p)
+						verdict("open", err == nil, wantAll, err)
+						if err == nil {
+							db.Close()
+						}
+						delete(detail, "route")
+						c.Count("open_of_padded_files", 1)
 					}
 					os.Remove(p)
 				}
